@@ -216,23 +216,29 @@ def forked_threads(ctx):
         return fork_thread(e)
 
     @task(namespace="c05t", version="1")
+    def outer(steps, depth):
+        # the context override sits `depth` jobs above the forking job
+        return make_thread(steps) if depth <= 1 else outer(steps, depth - 1)
+
+    @task(namespace="c05t", version="1")
     def joiner(t, other):
         return [join_thread(t), other]
 
     rng = ctx.rng
-    for steps in (0, 1, 2):
+    for steps, depth in ((0, 0), (1, 0), (2, 0), (1, 1), (2, 2), (0, 1)):
         for c1, c2 in (({"a": 1}, {"a": 2}), ({"a": 1, "b": 1}, {"b": 1}), ({"a": 3}, {"a": 3})):
-            for k in range(ctx.n(2, 8)):
+            for k in range(ctx.n(1, 6)):
                 c = ctl_sched.Ctl(rng=random.Random(rng.random()))
                 sched = ctl_sched.make_scheduler(c)
-                st, got = c.run(sched, joiner(make_thread.update_context(c1)(steps), g.update_context(c2)()))
+                forker = make_thread.update_context(c1)(steps) if depth == 0 else outer.update_context(c1)(steps, depth)
+                st, got = c.run(sched, joiner(forker, g.update_context(c2)()))
                 exp = [[c1.get("a", 0), c1.get("b", 0)], [c2.get("a", 0), c2.get("b", 0)]]
-                ctx.case(key=("fork", steps, json.dumps(c1), json.dumps(c2), tuple(str(j.task.name) for j in c.completions)),
+                ctx.case(key=("fork", steps, depth, json.dumps(c1), json.dumps(c2), tuple(str(j.task.name) for j in c.completions)),
                          sample={"steps": steps, "contexts": [c1, c2], "status": st, "result": repr(got)[:80]}, kind="forked-thread", status=st)
                 if st != "ok" or got != exp:
                     ctx.violation("C05-forked-thread-call-ran-in-another-context",
                                   "a call created by a forked thread after its forking job finished did not run in that job's context",
-                                  case={"steps": steps, "contexts": [c1, c2], "completion_order": [str(j.task.name) for j in c.completions]},
+                                  case={"steps": steps, "override_depth": depth, "contexts": [c1, c2], "completion_order": [str(j.task.name) for j in c.completions]},
                                   expected=exp, actual=(st, repr(got)[:200]), kind="schedule")
 
 
